@@ -15,6 +15,7 @@ package writeback
 
 import (
 	"context"
+	"errors"
 	"fmt"
 	"os"
 	"time"
@@ -29,6 +30,10 @@ import (
 
 	"go.opentelemetry.io/otel/trace"
 )
+
+// errCacheFileMissing is returned by upload when there is no cache file to
+// write back.
+var errCacheFileMissing = errors.New("writeback cache file missing")
 
 var _writebackLatencyBuckets = tally.MustMakeExponentialDurationBuckets(1*time.Second, 1.4, 30)
 
@@ -104,6 +109,12 @@ func (e *Executor) Exec(r persistedretry.Task) error {
 	).Debug("Executing writeback task")
 
 	if err := e.upload(ctx, t); err != nil {
+		if err == errCacheFileMissing {
+			// The task is dropped. Nothing was written back, so the persist
+			// metadata is left alone: a file which shows up under this name from
+			// now on belongs to a new upload with its own write-back task.
+			return nil
+		}
 		log.WithTraceContext(ctx).With(
 			"namespace", t.Namespace,
 			"name", t.Name,
@@ -224,7 +235,7 @@ func (e *Executor) upload(ctx context.Context, t *Task) error {
 				"namespace", t.Namespace,
 				"name", t.Name,
 			).Error("Invariant violation: writeback cache file missing")
-			return nil
+			return errCacheFileMissing
 		}
 		log.WithTraceContext(ctx).With(
 			"namespace", t.Namespace,
